@@ -2234,6 +2234,17 @@ func freeServiceVirtualIP(
 		return fmt.Errorf("failed service lookup for %q: %s", psn.ServiceName.Name, err)
 	}
 
+	// ... or if a sidecar proxy for this service (or a connect-native instance)
+	// still exists: those instances advertise the virtual IP in their tagged
+	// addresses even when no instance is registered under the service's own name.
+	if remainingConnect, err := tx.First(tableServices, indexConnect, q); err == nil {
+		if remainingConnect != nil {
+			return nil
+		}
+	} else {
+		return fmt.Errorf("failed connect service lookup for %q: %s", psn.ServiceName.Name, err)
+	}
+
 	// Don't deregister the virtual IP if at least one resolver/router/splitter config entry still
 	// references this service.
 	configEntryVIPKinds := []string{
